@@ -596,8 +596,20 @@ func TestSort(t *testing.T) {
 		rng := r.Rand(uint64(800 + w))
 		for i := lo; i < hi; i++ {
 			in := make([]netip.Addr, rng.IntN(41))
+			if i%200 == 7 {
+				in = make([]netip.Addr, 300+rng.IntN(2700)) // long slices: the sort switches algorithm with length
+			}
 			for k := range in {
-				switch rng.IntN(8) {
+				switch rng.IntN(10) {
+				case 8:
+					// any bytes at all (top bits set, every family prefix)
+					var b [16]byte
+					for j := range b {
+						b[j] = byte(rng.Uint32())
+					}
+					in[k] = netip.AddrFrom16(b)
+				case 9:
+					in[k] = netip.AddrFrom4([4]byte{byte(rng.Uint32()), byte(rng.Uint32()), byte(rng.Uint32()), byte(rng.Uint32())})
 				case 0:
 				case 1, 2:
 					in[k] = pool[rng.IntN(len(pool))]
